@@ -370,11 +370,14 @@ def run(ctx):
 
     # crashes and exceptions
     timeouts = 0
+    timeouts_first = []       # under PIVOT_ROW_STRATEGY_FIRST (the endless loop of KF-C07-9 cannot be the cause)
     for e in events:
         w = e["what"]
         if w.startswith("crash SIGXCPU"):
             timeouts += 1
             stats["timeout(inconclusive)"] += 1
+            if e["ops"] and " piv 0" in e["ops"][-1]:
+                timeouts_first.append(e)
             continue
         if w.startswith("exc "):
             stats["exception"] += 1
@@ -406,6 +409,18 @@ def run(ctx):
                       replay_of(e["case"], {"event": w, "ops": e["ops"], "prob": e["prob"], "cs": e["cs"], "site": site, "tags": tags,
                                             "previous_tree": e["prev"].tree if e["prev"] else None}),
                       found_input=True, record={"site": site, "tags": tags})
+
+    # A single solve that hits the CPU limit is inconclusive (DESIGN §4 (viii)).  A solver that stops returning on a
+    # sizeable share of the problems is not: on the clean tree about 1 solve in 15 000 under PIVOT_ROW_STRATEGY_FIRST hits
+    # the limit (CPU time of the child, so machine load cannot cause it).
+    n_first = sum(1 for r in recs if r.field("piv") == "0") + len(timeouts_first)
+    if len(timeouts_first) >= max(10, n_first // 100):
+        e = timeouts_first[0]
+        ctx.violation("solve() does not return within the CPU limit on %d of %d solves under PIVOT_ROW_STRATEGY_FIRST "
+                      "(clean tree: < 0.1 %%); first: case %d during `%s`" % (len(timeouts_first), n_first, e["case"], e["ops"][-1]),
+                      replay_of(e["case"], {"event": e["what"], "ops": e["ops"], "prob": e["prob"], "cs": e["cs"],
+                                            "site": "timeout-rate", "tags": []}),
+                      found_input=True, record={"site": "timeout-rate", "tags": []})
 
     for b in broken:
         ctx.violation("proof obligation broken: " + b, {"obligation": b}, found_input=False)
